@@ -2574,4 +2574,119 @@ example : nodeSharder exPool3.shared = exRC.sharder 3 ∧ nodeSharder (Refiller.
 example : NrU16 ⟨0, some ⟨2, 4, 0⟩⟩ ∧ SharderM.Valid ⟨4, 0⟩ :=
   ⟨(by intro i h; cases h; decide), (by unfold SharderM.Valid; decide)⟩
 
+/-! ## 9. The statement's own consistency (`StatementConfig::consistency`; audit round 6, item 3) -/
+
+/-- `RRequest` with another consistency. -/
+def withConsistency (c : Consistency) (r : RRequest) : RRequest := { r with rq := { r.rq with consistency := c } }
+
+/-- **The statement's consistency wins - and nothing else of the routing information moves.** For `execute`, the pager
+and `batch`: the `RoutingInfo` built under `effectiveExec sc profile` (`statement_config.consistency.unwrap_or(profile
+.consistency)`) is the one built under the profile with only its `consistency` replaced by the statement's when set;
+token, table, LWT flag, location preference and every error are untouched; with no statement-level consistency the
+profile's routing information is reproduced exactly. -/
+theorem statement_consistency_overrides (sc : StmtConfigM) (ex : ExecM) :
+    (∀ p values, sessionRoutingInfo p values (effectiveExec sc ex) =
+      (sessionRoutingInfo p values ex).map (withConsistency (sc.consistency.getD ex.consistency))) ∧
+    (∀ p values, pagerRoutingInfo p values (effectiveExec sc ex) =
+      (pagerRoutingInfo p values ex).map (withConsistency (sc.consistency.getD ex.consistency))) ∧
+    (∀ stmts fv, batchRoutingInfo stmts fv (effectiveExec sc ex) =
+      (batchRoutingInfo stmts fv ex).map (withConsistency (sc.consistency.getD ex.consistency))) ∧
+    (sc.consistency = none → effectiveExec sc ex = ex) := by
+  refine ⟨?_, ?_, ?_, ?_⟩
+  · intro p values
+    unfold sessionRoutingInfo effectiveExec
+    cases PartitionKey.boundCalculateToken p.cdc p.pk values <;> rfl
+  · intro p values
+    unfold pagerRoutingInfo effectiveExec
+    cases PartitionKey.boundCalculateToken p.cdc p.pk values <;> rfl
+  · intro stmts fv
+    unfold batchRoutingInfo effectiveExec
+    cases stmts.head? with
+    | none => rfl
+    | some s =>
+      cases s with
+      | unprepared => rfl
+      | prepared p =>
+        cases fv with
+        | none => rfl
+        | some values =>
+          simp only
+          cases PartitionKey.boundCalculateToken p.cdc p.pk values <;> rfl
+  · intro h
+    unfold effectiveExec
+    rw [h]
+    rfl
+
+open ScyllaVerif.Props.C05 in
+/-- **A serial consistency set on the STATEMENT routes as an LWT** - through `execute`, the pager (all pages) and
+`batch` alike: whatever the profile's consistency is and whether or not the PREPARED response carried the LWT mark,
+every `RoutingInfo` built under `effectiveExec` carries that serial consistency, `should_route_as_lwt` holds, and so
+(C05 `lwt_plan_replicas`) on a RING table, for all random choices, the replica part of the plan is the deterministic
+list of live permitted replicas in ring order - the first attempt is the PRIMARY live replica, no shuffling. -/
+theorem statement_serial_routes_as_lwt (sc : StmtConfigM) (ex : ExecM)
+    (hser : sc.consistency = some .serial ∨ sc.consistency = some .localSerial) (r : RRequest)
+    (hr : (∃ p values, sessionRoutingInfo p values (effectiveExec sc ex) = .ok r) ∨
+          (∃ p values, pagerRoutingInfo p values (effectiveExec sc ex) = .ok r) ∨
+          (∃ stmts fv, batchRoutingInfo stmts fv (effectiveExec sc ex) = .ok r)) :
+    sc.consistency = some r.rq.consistency ∧ r.rq.routeAsLwt = true ∧
+    ∀ (rc : RCluster) (cfg : Config), WF (rc.toCluster r.rq.token) → tabletsOf rc r = none → ∀ ρp ρf,
+      (routePlan rc cfg r ρp ρf).filter (fun t => decide (classOf (rc.toCluster r.rq.token) cfg r.rq t.1 ≤ 2)) =
+        uniqueBy (lwtReplicas (rc.toCluster r.rq.token) cfg r.rq) := by
+  have hc : sc.consistency = some r.rq.consistency := by
+    have hcons : (effectiveExec sc ex).consistency = sc.consistency.getD ex.consistency := rfl
+    have key : r.rq.consistency = (effectiveExec sc ex).consistency := by
+      rcases hr with ⟨p, values, h⟩ | ⟨p, values, h⟩ | ⟨stmts, fv, h⟩
+      · unfold sessionRoutingInfo at h
+        cases hb : PartitionKey.boundCalculateToken p.cdc p.pk values with
+        | error e => rw [hb] at h; cases h
+        | ok tok => rw [hb] at h; cases h; rfl
+      · unfold pagerRoutingInfo at h
+        cases hb : PartitionKey.boundCalculateToken p.cdc p.pk values with
+        | error e => rw [hb] at h; cases h
+        | ok tok => rw [hb] at h; cases h; rfl
+      · unfold batchRoutingInfo at h
+        cases hs : stmts.head? with
+        | none => rw [hs] at h; cases h; rfl
+        | some s =>
+          rw [hs] at h
+          cases s with
+          | unprepared => cases h; rfl
+          | prepared p =>
+            cases fv with
+            | none => cases h; rfl
+            | some values =>
+              simp only at h
+              cases hb : PartitionKey.boundCalculateToken p.cdc p.pk values with
+              | error e => rw [hb] at h; cases h
+              | ok tok => rw [hb] at h; cases h; rfl
+    rw [key, hcons]
+    rcases hser with h | h <;> rw [h] <;> rfl
+  have hlwt : r.rq.routeAsLwt = true := by
+    unfold Request.routeAsLwt
+    rcases hser with h | h
+    · have h2 : Consistency.serial = r.rq.consistency := Option.some.inj (h.symm.trans hc)
+      rw [← h2]; simp
+    · have h2 : Consistency.localSerial = r.rq.consistency := Option.some.inj (h.symm.trans hc)
+      rw [← h2]; simp
+  refine ⟨hc, hlwt, ?_⟩
+  intro rc cfg hwf htab ρp ρf
+  rw [(tablet_overrides_ring rc cfg r ρp ρf).2 htab]
+  exact lwt_plan_replicas hwf cfg r.rq hlwt ρp ρf
+
+-- non-vacuity: a statement with `set_consistency(Serial)` under a profile at QUORUM - the routing information of
+-- `execute`, of the pager and of a batch carries SERIAL and is routed as an LWT although the statement is not a
+-- confirmed LWT; without a statement-level consistency the profile's QUORUM stays and the request is not LWT-routed.
+example :
+    let p : PreparedM := ⟨PartitionKey.pkIndexesOfWire [0], false, some (0, 0), false⟩
+    let vals : List PartitionKey.RawValue := [.value [1, 2, 3]]
+    let ex : ExecM := ⟨.quorum, .any⟩
+    ((sessionRoutingInfo p vals (effectiveExec ⟨some .serial⟩ ex)).toOption.map (fun r => (r.rq.consistency, r.rq.routeAsLwt))) =
+      some (.serial, true) ∧
+    ((pagerRoutingInfo p vals (effectiveExec ⟨some .serial⟩ ex)).toOption.map (fun r => (r.rq.consistency, r.rq.routeAsLwt))) =
+      some (.serial, true) ∧
+    ((batchRoutingInfo [.prepared p] (some vals) (effectiveExec ⟨some .localSerial⟩ ex)).toOption.map
+      (fun r => (r.rq.consistency, r.rq.routeAsLwt))) = some (.localSerial, true) ∧
+    ((sessionRoutingInfo p vals (effectiveExec ⟨none⟩ ex)).toOption.map (fun r => (r.rq.consistency, r.rq.routeAsLwt))) =
+      some (.quorum, false) := by decide +kernel
+
 end ScyllaVerif.Props.C12
